@@ -104,6 +104,7 @@ type cliExec struct {
 	busy     map[string]bool
 	replyBye bool
 	quit     chan struct{}
+	deafCh   chan struct{}
 }
 
 func (x *cliExec) nowMs() int { return int(time.Since(x.start) / time.Millisecond) }
@@ -159,6 +160,10 @@ func (x *cliExec) routerSide() {
 			x.mu.Lock()
 			x.emits = append(x.emits, e)
 			x.mu.Unlock()
+		case <-x.deafCh:
+			// the router stops reading (and keeps the connection)
+			<-x.quit
+			return
 		case <-x.quit:
 			return
 		}
@@ -474,6 +479,12 @@ func (x *cliExec) step(in CliInput) {
 		x.toClient(&wamp.Goodbye{Reason: wamp.CloseSystemShutdown, Details: wamp.Dict{}})
 	case "abort":
 		x.toClient(&wamp.Abort{Reason: wamp.ErrProtocolViolation, Details: wamp.Dict{}})
+	case "deaf":
+		select {
+		case <-x.deafCh:
+		default:
+			close(x.deafCh)
+		}
 	case "drop":
 		x.rtr.Close()
 	case "close":
@@ -516,6 +527,7 @@ func (x *cliExec) run(sc *CliScenario) {
 	x.rets, x.emits, x.cbs = nil, nil, nil
 	x.closeret, x.pending, x.blocked, x.replyBye = false, 0, false, false
 	x.quit = make(chan struct{})
+	x.deafCh = make(chan struct{})
 	cli, rtr := transport.LinkedPeers()
 	x.rtr = rtr
 	made := make(chan *client.Client, 1)
